@@ -397,6 +397,13 @@ func (p *Prog) langDefAxiom(name string) (string, []string) {
 		return "", nil
 	}
 	fn := call.Fun.(*ast.Ident).Name
+	if fn == "regex" {
+		pat, err := litString(call.Args[0])
+		if err != nil {
+			return "", nil
+		}
+		return charSeqAxiom(name, pat), nil
+	}
 	if fn == "lit" {
 		s, err := litString(call.Args[0])
 		if err != nil {
